@@ -1,4 +1,6 @@
-// Run-time causality monitor shared by C03 and C04: deep images of the schedule snapshots, re-verified after every
+// Run-time causality monitor shared by C03 and C04: deep images of the schedule snapshots (public-query image + an independent
+// deep copy compared member by member; NOT the packed bytes, which carry shared_ptr identities = heap addresses and change when an
+// object is replaced by an equal one), re-verified after every
 // later event that can touch the Schedule (each applyAction, run end).
 #pragma once
 #include "../../simcore/runner.hpp"
@@ -14,20 +16,19 @@ using sim::RunResult;
 struct Monitor : Observer {
     RunResult& r; std::string prefix; bool failed = false; long checks = 0;
     std::vector<std::uint64_t> query_img;      // per state: hash of the public-query image
-    std::vector<std::uint64_t> pack_img;       // per state: hash of the serialised bytes (deep: shared_ptr members included)
+    std::vector<std::shared_ptr<Opm::ScheduleState>> deep_img;   // per state: an independent deep copy (serialised and unpacked into a fresh object)
     Monitor(RunResult& rr, const std::string& pfx) : r(rr), prefix(pfx) {}
-    static std::uint64_t pack_hash(const Opm::Schedule& s, size_t k) { auto b = pack_state(s, k); return sim::digest(b.data(), b.size()); }
     void snapshot(World& w, int upto) {
         for (int k = static_cast<int>(query_img.size()); k <= upto; ++k) {
             query_img.push_back(hash_dump(dump_state(*w.sched, static_cast<size_t>(k), *w.st, DumpOpts{true, true, true, false, true, true, false})));
-            pack_img.push_back(pack_hash(*w.sched, static_cast<size_t>(k)));
+            deep_img.push_back(deep_copy_state(*w.sched, static_cast<size_t>(k)));
         }
     }
     void verify(World& w, const std::string& after, int below) {
         for (int k = 0; k < below && k < static_cast<int>(query_img.size()) && !failed; ++k) {
             ++checks;
             if (hash_dump(dump_state(*w.sched, static_cast<size_t>(k), *w.st, DumpOpts{true, true, true, false, true, true, false})) != query_img[static_cast<size_t>(k)]) { failed = true; r.fail(prefix + ".earlier_state_changed.queries", "schedule state " + std::to_string(k) + " answers public queries differently after " + after); }
-            else if (pack_hash(*w.sched, static_cast<size_t>(k)) != pack_img[static_cast<size_t>(k)]) { failed = true; r.fail(prefix + ".earlier_state_changed.bytes", "schedule state " + std::to_string(k) + " serialises to different bytes after " + after); }
+            else { const std::string md = state_member_diff(*deep_img[static_cast<size_t>(k)], (*w.sched)[static_cast<size_t>(k)], false, false, false); if (!md.empty()) { failed = true; r.fail(prefix + ".earlier_state_changed.member." + md, "schedule state " + std::to_string(k) + ": member '" + md + "' differs from the deep copy taken when simulated time passed the step, after " + after); } }
         }
     }
     void before_actions(World& w, int step) override { snapshot(w, step - 1); }
